@@ -129,6 +129,11 @@ const fSetPipeSz = 1031
 
 // runPaced runs a client with a harness-owned stdout pipe.
 func runPaced(cmd vlib.Cmd, p pacing, pipeSize int) (*vlib.Result, []byte) {
+	return runPacedPid(cmd, p, pipeSize, nil)
+}
+
+// runPacedPid additionally reports the child's pid once it runs.
+func runPacedPid(cmd vlib.Cmd, p pacing, pipeSize int, onPid func(int)) (*vlib.Result, []byte) {
 	pr, pw, err := os.Pipe()
 	if err != nil {
 		return &vlib.Result{TimedOut: true}, nil
@@ -142,9 +147,12 @@ func runPaced(cmd vlib.Cmd, p pacing, pipeSize int) (*vlib.Result, []byte) {
 	cmd.Busy = func() bool { return atomic.LoadInt32(&c.stalled) == 1 }
 	// the child inherits pw at Start; the parent's copy is closed once it runs,
 	// so that the consumer sees EOF when the child exits.
-	cmd.OnStart = func(int) {
+	cmd.OnStart = func(pid int) {
 		pw.Close()
 		go c.run()
+		if onPid != nil {
+			onPid(pid)
+		}
 	}
 	res := vlib.RunCmd(cmd)
 	pw.Close()
